@@ -98,7 +98,8 @@ class Encoder:
                 {
                     "st": self.conn_state(c),
                     "mux": c["proto"] == "h2",
-                    "cnt": c["count"],
+                    # (while a tunnel still shows its proxy leg the count is that of the CONNECT exchange)
+                    "cnt": 0 if (self.conn_state(c) == "connecting" and STATE.get(c["state"]) != "connecting") else c["count"],
                     "idle": c["idle"],
                     "av": c["avail"],
                     "ex": c["expired"],
